@@ -154,7 +154,7 @@ def build_flow(torch, st, D, seed):
     return f.double().eval()
 
 
-def mass(torch, flow, D, ctx_row, panels):
+def mass(torch, flow, D, ctx_row, panels, refine=False, T_override=None):
     """Integral of exp(log_prob) over R^D with x = sinh(t), t in [-T, T]."""
     from vcore.quad import integrate
 
@@ -167,7 +167,7 @@ def mass(torch, flow, D, ctx_row, panels):
             raise
         return v + torch.log(torch.cosh(t)).sum(-1)
 
-    T_ = 18.0
+    T_ = T_override or 18.0
     # a very confident base concentrates the mass in a spike: put panel edges geometrically around the
     # pre-image of the base mean so that the adaptive rule cannot step over it
     t0s = None
@@ -197,7 +197,7 @@ def mass(torch, flow, D, ctx_row, panels):
         from vcore.quad import integrate_adaptive_2d
 
         extra = tuple([t0 + sgn * 10.0 ** (k / 2.0) for k in range(-6, 1) for sgn in (-1.0, 1.0)] + [t0] for t0 in t0s) if t0s and len(t0s) == 2 else ((), ())
-        tot, conv = integrate_adaptive_2d(lp, [(-T_, T_)] * 2, tol=2e-6, init_panels=48, extra_edges=extra)
+        tot, conv = integrate_adaptive_2d(lp, [(-T_, T_)] * 2, tol=2e-7 if refine else 2e-6, init_panels=96 if refine else 48, extra_edges=extra)
         return tot if conv else float("nan")   # not converged: no verdict
     return integrate(lp, [(-T_, T_)] * D, panels=panels, order=6, chunk=150000)
 
@@ -215,6 +215,9 @@ def expected_mass(torch, flow, names, ctx_row):
     if names.count("logit") > 1:
         return 1.0 if names[-1] == "logit" and names.index("logit") == len(names) - 1 else None
     import math
+
+    if type(flow._distribution).__name__ == "MADEMoG" and names[-1] != "logit":
+        return None   # the accounting below integrates a Gaussian base in closed form
 
     parts = list(flow._transform._transforms)
     i = names.index("logit")
@@ -341,6 +344,35 @@ def flow_task(t):
                         break
                     out["skipped"].append("flow %s | %s (D=%d): the adaptive cubature did not converge" % (names, case["base"], D))
                     break
+                if onto and D == 2 and not abs(tot - want) <= tol:
+                    # a deviation found by the two-dimensional cubature is confirmed on a finer rule (twice the panels,
+                    # a tenth of the tolerance) before it is believed: a density ridge narrower than the first
+                    # panels can cost a few 1e-4 of mass although the rule reports convergence
+                    try:
+                        tot_fine = mass(torch, flow_used, D, c, 150, refine=True)
+                    except Exception:  # noqa
+                        tot_fine = float("nan")
+                    # ... and on a wider range (x = sinh t up to e^30 instead of e^18): an autoregressive or coupling scale
+                    # that shrinks towards its floor far out gives the density tails of 1e-4 mass beyond any fixed box
+                    try:
+                        tot_wide = mass(torch, flow_used, D, c, 150, refine=True, T_override=30.0)
+                    except Exception:  # noqa
+                        tot_wide = float("nan")
+                    if tot_wide == tot_wide and tot_fine == tot_fine and tot_wide - tot_fine > 1e-5:
+                        if abs(tot_wide - want) <= tol:
+                            tot = tot_wide
+                            tot_fine = tot_wide
+                        else:
+                            out["skipped"].append("flow %s | %s (D=2): mass keeps arriving from beyond the integration range (%.7f on e^18, %.7f on e^30)" % (names, case["base"], tot_fine, tot_wide))
+                            break
+                    if tot_fine != tot_fine or abs(tot_fine - tot) > 0.5 * abs(tot - want):
+                        if tot_fine == tot_fine and abs(tot_fine - want) <= tol:
+                            tot = tot_fine
+                        else:
+                            out["skipped"].append("flow %s | %s (D=2): the cubature does not settle (%.7f, refined %.7f)" % (names, case["base"], tot, tot_fine))
+                            break
+                    else:
+                        tot = tot_fine
                 if onto and not abs(tot - want) <= tol:
                     out["fails"].append(dict(case, hist=hist, clause="not_normalised", detail="flow %s | %s (D=%d%s%s): exp(log_prob) integrates to %.7f%s" % (" -> ".join(names), case["base"], D, ", context row %d" % r if case["ctx"] else "", {"plain": "", "cache_after_sample": ", cache on after sample()", "cache_cold": ", cache on, density first", "after_load": ", state dict loaded into a flow built with other values"}[hist], tot, "" if want == 1.0 else " (the image of Logit's clamped domain carries base mass %.7f)" % want)))
                     break
